@@ -319,6 +319,11 @@ class Sym:
                             pays.append(x_[2][0])
                     if okv and len(pays) == 1:
                         return strip(pays[0])
+            if d[0] == "downcast" and d[2] == "Some":
+                f_ = strip(d[1])
+                if f_[0] == "call" and short(f_[1]) == "<impl [T]>::first" and len(f_[2]) == 1:
+                    # `s.first()`'s payload is `s[0]`
+                    return ("call", "std::ops::Index::index", (f_[2][0], ("const", 0, "usize")), f_[3])
             if d[0] == "downcast" and d[2] in ("Some", "Ok"):
                 m_ = strip(d[1])
                 if m_[0] == "call" and short(m_[1]) in ("Option::<T>::map", "Result::<T, E>::map") and len(m_[2]) == 2:
@@ -2211,6 +2216,9 @@ class Sym:
             if tyname and (tyname.startswith("std::option::Option") or tyname.startswith("core::option::Option")):
                 some = (rel == "in" and vs == [1]) or (rel == "notin" and vs == [0])
                 none = (rel == "in" and vs == [0]) or (rel == "notin" and vs == [1])
+                if (some or none) and inner[0] == "call" and short(inner[1]) in ("<impl [T]>::first", "<impl [T]>::last") and len(inner[2]) == 1:
+                    # `s.first()` / `s.last()` is Some exactly when s is not empty
+                    return [("pred", "is_empty(%s)" % self.arg_name(inner[2][0]), bool(none))]
                 if some or none:
                     return [("some" if some else "none", self.name(inner), inner)]
             if tyname and (tyname.startswith("std::result::Result") or tyname.startswith("core::result::Result")):
